@@ -476,7 +476,18 @@ impl Schema {
                     None,
                 );
                 let mut streams = Vec::new();
-                subscription.collect_streams(&schema, &ctx, &mut streams, &request.root_value);
+                // introspection-only: no user resolver runs (as for queries and mutations)
+                if schema.0.env.registry.introspection_mode != IntrospectionMode::IntrospectionOnly
+                    && env.introspection_mode != IntrospectionMode::IntrospectionOnly
+                {
+                    subscription.collect_streams(&schema, &ctx, &mut streams, &request.root_value);
+                } else {
+                    let err = ServerError::new(
+                        "Subscriptions are not available in introspection-only mode.",
+                        None,
+                    );
+                    yielder.yield_item(Response::from_errors(vec![err])).await;
+                }
 
                 let mut stream = futures_util::stream::select_all(streams);
                 while let Some(resp) = stream.next().await {
